@@ -10,7 +10,9 @@ META = dict(
          "(inf too in thorough) and sensed rate in {-1, 0.05, inf, nan} is executed, sequences being merged when "
          "they reach the same (prior set point, prior error, error sum). After every evaluated update: ovmin <= output <= ovmax and esmin <= error sum <= esmax "
          "(a NaN fails), the stored error is the shortest representative of input - set point modulo 2*wrap, the prior set point follows the threshold rule, "
-         "and after a set point change above the threshold the new error sum equals the one obtained from the same update with the integrator forced to zero.",
+         "and after a set point change above the threshold the new error sum equals the one obtained from the same update with the integrator forced to zero. "
+         "A retune family adds operations that change ovmin/ovmax or esmin/esmax in the parm share between updates (tighter, shifted, back); every evaluated "
+         "update is judged against the limits in the share at that moment.",
     note="Values, gains and limits are small fixed sets; limits are finite-or-infinite ordered pairs (a NaN limit is not ordered). The limits are required after "
          "updates the controller evaluates (positive lapse): the initial/restart value 0.0 of output and error sum is not a computed value. The output formula "
          "and the integrator's blending are not part of the statement and are not checked.",
@@ -115,16 +117,27 @@ class Rig:
 
     def snap(self):
         c = self.c
-        return (c.prsp.value, c.e.value, c.er.value, c.es.value, c.output.value, c.elapsed.value, c.stamp, c.lapse, self.store.stamp)
+        d = c.parm.data
+        return (c.prsp.value, c.e.value, c.er.value, c.es.value, c.output.value, c.elapsed.value, c.stamp, c.lapse, self.store.stamp,
+                (d.ovmin, d.ovmax, d.esmin, d.esmax))
 
     def restore(self, s):
         c = self.c
         c.prsp.value, c.e.value, c.er.value, c.es.value, c.output.value, c.elapsed.value, c.stamp, c.lapse = s[:8]
         self.store.changeStamp(s[8])
+        d = c.parm.data
+        if (d.ovmin, d.ovmax, d.esmin, d.esmax) != s[9]:
+            c.parm.update(ovmin=s[9][0], ovmax=s[9][1], esmin=s[9][2], esmax=s[9][3])
 
     def update(self, ev):
-        inp, rate, rsp, lapse = ev
         c = self.c
+        if ev[0] == "ov":       # retune: what `put lo hi into <group>.parm` / parm.update does between two updates
+            c.parm.update(ovmin=ev[1], ovmax=ev[2])
+            return
+        if ev[0] == "es":
+            c.parm.update(esmin=ev[1], esmax=ev[2])
+            return
+        inp, rate, rsp, lapse = ev
         c.input.value = inp
         c.rate.value = rate
         c.rsp.value = rsp
@@ -133,14 +146,20 @@ class Rig:
 
 
 def canon(s, evaluated):
-    return (fr(s[0]), fr(s[1]), fr(s[3]), evaluated, fr(s[8]) if not finite(s[8]) else "t")
+    return (fr(s[0]), fr(s[1]), fr(s[3]), evaluated, fr(s[8]) if not finite(s[8]) else "t", fr(s[9]))
 
 
 # (input, set point) pairs exactly half a turn apart, also plus whole turns, for wrap 180: the shortest difference is +-wrap, never 0
 HALF_TURN = ((270.0, 90.0), (630.0, 90.0), (0.0, -180.0), (-90.0, 90.0), (-450.0, 90.0))
 
 
-def events(calc, tier, wrap=0.0):
+OV_ALT = ((-5.0, 5.0), (30.0, 40.0))        # retune targets: tighter, shifted (ordered pairs)
+ES_ALT = ((-1.0, 1.0), (3.0, 4.0))
+RETUNE_VALUES = (0.0, 1.0, 200.0, -200.0, INF, NAN)
+
+
+def events(calc, tier, wrap=0.0, retune=None):
+    values = RETUNE_VALUES if (retune and tier == "quick") else VALUES
     if calc:        # the sensed rate is not read in this mode
         lapses = (0.125, 1.0) if tier == "quick" else (0.125, 1.0, INF)
         rates = (0.0,)
@@ -150,12 +169,18 @@ def events(calc, tier, wrap=0.0):
     evs = [(0.0, 0.0, 0.0, 0.0)]     # zero lapse: the controller holds; its inputs are not even read
     for lapse in lapses:
         for rate in rates:
-            for rsp in VALUES:
-                for inp in VALUES:
+            for rsp in values:
+                for inp in values:
                     evs.append((inp, rate, rsp, lapse))
             if wrap:
                 for inp, rsp in HALF_TURN:
                     evs.append((inp * abs(wrap) / 180.0, rate, rsp * abs(wrap) / 180.0, lapse))
+    if retune:      # limit changes between updates: the two alternatives and back to the constructed pair
+        ov0, es0 = retune
+        for pair in OV_ALT + (ov0,):
+            evs.append(("ov", pair[0], pair[1]))
+        for pair in ES_ALT + (es0,):
+            evs.append(("es", pair[0], pair[1]))
     return evs
 
 
@@ -165,7 +190,7 @@ def show_cfg(cfg):
 
 
 def show(cfg, hist):
-    return "%s updates(input,rate,rsp,lapse)=%s" % (show_cfg(cfg), "".join("(%r,%r,%r,%r)" % e for e in hist))
+    return "%s updates(input,rate,rsp,lapse)=%s" % (show_cfg(cfg), "".join(("(%r,%r,%r,%r)" if len(e) == 4 else "[set %s limits to %r,%r]") % e for e in hist))
 
 
 def work(job):
@@ -176,8 +201,9 @@ def work(job):
 
 def _work(job):
     core.use_repo()
-    cfg, depth, tier = job
-    wrap, calc, ger, (esmin, esmax), gains, (ovmin, ovmax) = cfg
+    cfg, depth, tier = job[:3]
+    retune = len(job) > 3 and job[3]
+    wrap, calc, ger, (esmin0, esmax0), gains, (ovmin0, ovmax0) = cfg
     p = core.Part()
     try:
         rig = Rig(cfg)
@@ -187,15 +213,16 @@ def _work(job):
         p.evaluations += 1
         p.violation("construction raises %s: %s" % (type(ex).__name__, ex), show_cfg(cfg), "building the controller raised %r" % (ex,), dict(config=show_cfg(cfg)))
         return p
-    evs = events(calc, tier, wrap)
+    evs = events(calc, tier, wrap, ((ovmin0, ovmax0), (esmin0, esmax0)) if retune else None)
     p.nontrivial(("cfg", fr(cfg)))
 
     def bad(group, hist, what, **kw):
-        rep = dict(config=dict(wrap=wrap, drsp=DRSP, calcRate=calc, ger=ger, esmin=esmin, esmax=esmax, gff=gains[0], gpe=gains[1], gde=gains[2],
-                               gie=gains[3], ovmin=ovmin, ovmax=ovmax),
-                   updates=[dict(input=e[0], rate=e[1], rsp=e[2], lapse=e[3]) for e in hist],
+        rep = dict(config=dict(wrap=wrap, drsp=DRSP, calcRate=calc, ger=ger, esmin=esmin0, esmax=esmax0, gff=gains[0], gpe=gains[1], gde=gains[2],
+                               gie=gains[3], ovmin=ovmin0, ovmax=ovmax0),
+                   updates=[dict(input=e[0], rate=e[1], rsp=e[2], lapse=e[3]) if len(e) == 4 else
+                            {"parm.update": {e[0] + "min": e[1], e[0] + "max": e[2]}} for e in hist],
                    how="create ControllerPid with these parms, stamp 0, enter the frame, recur once, then per update set input/rate/rsp shares, "
-                       "store.advanceStamp(lapse), call the act")
+                       "store.advanceStamp(lapse), call the act; a parm.update entry changes the limits in the <group>.parm share between two updates")
         rep.update(kw)
         p.violation(group, show(cfg, hist), what, rep)
 
@@ -216,6 +243,17 @@ def _work(job):
                     p.outcome("raised")
                     continue
                 post = rig.snap()
+                if len(ev) == 3:            # limits changed in the parm share; nothing is computed until the next update
+                    if post[9] == pre[9]:
+                        continue            # same limits: no new state
+                    p.outcome("limits retuned")
+                    k = canon(post, was_eval)
+                    if k not in seen:
+                        seen[k] = h2
+                        p.nontrivial((fr(cfg[:4]), k))
+                        nxt.append((post, was_eval, h2))
+                    continue
+                ovmin, ovmax, esmin, esmax = pre[9]      # the limits configured when this update is evaluated
                 inp, rate, rsp, lapse = ev
                 dstamp = post[8] - pre[8]
                 lap = dstamp if dstamp > 0 else 0.0          # NaN (inf - inf) and 0 -> not evaluated
@@ -330,6 +368,13 @@ def configs(tier):
                 for wrap in WRAPS:
                     for ger in gers:
                         out.append(((wrap, False, ger, es, g, ov), 2 if not full else 3))
+    # retune family: the limits in the parm share are changed between updates
+    gs = ((1.0, 1.0, 1.0, 1.0), (0.0, 0.0, 0.0, 0.0), (0.0, NAN, 0.0, 0.0)) if not full else gain_vectors(False)
+    for g in gs:
+        for ov in (OVLIMS[0], OVLIMS[2]):
+            for es in (ESLIMS[0], ESLIMS[2]):
+                for wrap in ((0.0,) if not full else WRAPS):
+                    out.append(((wrap, True, 1.0, es, g, ov), 3, True))
     return out
 
 
@@ -369,7 +414,7 @@ def run():
     if shortest_ok(-160.0, 200.0, 180.0) is not True or shortest_ok(200.0, 200.0, 180.0) is not False or shortest_ok(20.0, 200.0, 180.0) is not False \
             or shortest_ok(-199.0, -199.0, 0.0) is not True or shortest_ok(NAN, INF, 180.0) is not None or shortest_ok(NAN, 1.0, 180.0) is not False or shortest_ok(180.0, -180.0, 180.0) is not True:
         raise core.BrokenCheck("shortest-wrapped-difference reference fails its self-check")
-    jobs = [(cfg, depth, core.TIER) for cfg, depth in configs(core.TIER)]
+    jobs = [(c[0], c[1], core.TIER) + tuple(c[2:]) for c in configs(core.TIER)]
     ck.merge(core.pmap(work, jobs, chunksize=1))
     ck.coverage_extra["configurations"] = len(jobs)
     ck.assumptions = [
@@ -383,15 +428,20 @@ def run():
         "integrator reset is judged differentially: the update is repeated from the same state with errorSum forced to 0.0 and must give the same error sum",
         "sequences are merged when prior set point, prior error and error sum (and 'store stamp is infinite') coincide: output, error rate and elapsed are not fed back; "
         "every recorded state is re-reached by plain replay of its witness history, the longest two on a freshly built controller",
+        "limits can be retuned at run time through the parm share (parm.update / FloScript put): an evaluated update must respect the limits in the share when it runs; "
+        "the values already in the output / error-sum shares are not re-clamped by the retune itself and are not judged until the next evaluated update",
         "controller created by Act.resolve (ioinits group/output/input/rate/rsp/parms) in a resolved house; primed as on the first tick: stamp 0, frame.enter (restart act), one recur",
     ]
     return ck.finish(
         rule="configurations = wrap {0,180} x error-sum limits %r x output limits x gain vectors (gff,gpe,gde,gie) x rate mode; calcRate True: %d gain vectors x 4 output limits, "
              "sequences of <= 3 updates, lapse %s; calcRate False: 7 gain vectors x 2 output limits x error-sum limits (quick: [-5,5] and [1,2] only) x ger %s, sequences of <= %d updates, lapse {0.125, 1} x sensed rate %s. "
-             "update = input x set point over %r (plus the half-turn pairs (270,90) (630,90) (0,-180) (-90,90) (-450,90) when wrap = 180) x lapse (x rate), plus a zero-lapse update. evaluations = real controller updates judged; states = distinct fed-back states summed over configurations."
+             "update = input x set point over %r (plus the half-turn pairs (270,90) (630,90) (0,-180) (-90,90) (-450,90) when wrap = 180) x lapse (x rate), plus a zero-lapse update. retune family (calcRate True, %s): the same with input/set point over %s plus the operations 'set output limits to [-5,5] / [30,40] / the constructed pair' "
+             "and 'set error-sum limits to [-1,1] / [3,4] / the constructed pair' between updates, <= 3 operations. evaluations = real controller updates judged; states = distinct fed-back states summed over configurations."
              % (ESLIMS, len(gain_vectors(core.TIER != "quick")), "{0.125, 1}" if core.TIER == "quick" else "{0.125, 1, inf}",
                 "{-3}" if core.TIER == "quick" else "{1,-3}", 2 if core.TIER == "quick" else 3,
-                "{-1, 0.05, inf, nan}" if core.TIER == "quick" else "{0, -1, 0.05, inf, nan}", VALUES),
+                "{-1, 0.05, inf, nan}" if core.TIER == "quick" else "{0, -1, 0.05, inf, nan}", VALUES,
+                "wrap 0, 3 gain vectors, 2x2 limits" if core.TIER == "quick" else "both wraps, 7 gain vectors, 2x2 limits",
+                RETUNE_VALUES if core.TIER == "quick" else VALUES),
         exhaustive=True)
 
 
